@@ -97,7 +97,7 @@ CHECKS = {
     "C20": dict(engine="K", technique=K_TECH, design_ref="§4 C20",
                 text=("Bounded model checking of the parsers generated by the derive macros for four struct shapes, differentially against "
                       "reference parsers written from the declared grammar, over argument vectors of arbitrary bytes; panics are failures."),
-                note=K_NOTE + " Quick: shape A <= 3 arguments of <= 3 bytes, shapes B and C <= 2 arguments, the error-cause buffer for every fill level / chunk length <= 300; thorough: 3-4 arguments for all four shapes plus one 140-byte argument through the real formatter."),
+                note=K_NOTE + " Quick: shape A <= 3 arguments of <= 3 bytes, shapes B and C <= 2 arguments, the error-cause buffer for every fill level / chunk length <= 300; thorough: 3 arguments for shapes B1, C, D and 4 for shape A (the 140-byte argument through the real formatter gave no verdict in 57 min and is not registered; the cause-buffer harness covers every chunk length <= 300)."),
     "C08": dict(engine="K", technique=K_TECH, design_ref="§4 C08",
                 text=("Bounded model checking of tiny-start's memcpy/memmove/memset/memcmp/bcmp with symbolic length, both "
                       "misalignments, overlap distance, fill byte and all buffer bytes; the C definition is asserted at a symbolic index over "
